@@ -11,7 +11,8 @@ implementation on both sides and the two sides are compared by
 
 Laws
   nest    D2[D1[A, s1], s2]  ==  (D1 n D2)[A, "s2 s1"];  ValueError iff D1 n D2 is
-          empty or both s1 and s2 have a multi-axis specifier.  D1 n D2 is a FRESH
+          empty or both s1 and s2 have a multi-axis specifier (and after such a refusal
+          each part alone, D2[A, s2] and D1[A, s1], is still built).  D1 n D2 is a FRESH
           user category (subclass of jaxtyping.AbstractDtype) whose dtype-name list
           is computed by refs/dtypes_c15 from the documented hierarchy.
   nest3   the same, three levels deep.
@@ -422,6 +423,16 @@ def _valkey(A, probes):
     raise common.HarnessError(f"unknown probe family {probes!r}")
 
 
+def _parts_survive(env, A, a, parts):
+    """After a nested build was refused (for a reason that lies in the COMBINATION): every part
+    alone -- category[A, dims], a legal annotation -- is still built.  -> problem or None"""
+    for d, s in parts:
+        r = env.build(lambda d=d, s=s: env.cat(d)[a, s])
+        if r[0] != "ann":
+            return f"after the refused nested build its part {d}[{A}, {s!r}] alone (a legal annotation) gives {r[0]}({r[1]!r})"
+    return None
+
+
 def law_nest(env, A, s1, s2, d1, d2, probes="std"):
     a = env.atom(A)
     valkey, sequel = _valkey(A, probes)
@@ -430,7 +441,8 @@ def law_nest(env, A, s1, s2, d1, d2, probes="std"):
     inter = rd.intersect(rd.members(d1), rd.members(d2))
     err = (inter != rd.ANY and len(inter) == 0) or (_multi(s1) and _multi(s2))
     if err:
-        return compare(env, lhs, [], valkey, True)
+        prob, nt = compare(env, lhs, [], valkey, True)
+        return prob or _parts_survive(env, A, a, [(d2, s2), (d1, s1)]), nt
     X = env.fresh_cat(inter)
     key = ("nest", inter, A, s1, s2)
     if key not in env.vec_cache:
@@ -445,7 +457,8 @@ def law_nest3(env, A, s1, s2, s3, d1, d2, d3, probes="std"):
     inter = rd.intersect(rd.members(d1), rd.members(d2), rd.members(d3))
     err = (inter != rd.ANY and len(inter) == 0) or sum(map(_multi, (s1, s2, s3))) > 1
     if err:
-        return compare(env, lhs, [], valkey, True)
+        prob, nt = compare(env, lhs, [], valkey, True)
+        return prob or _parts_survive(env, A, a, [(d3, s3), (d2, s2), (d1, s1)]), nt
     X = env.fresh_cat(inter)
     key = ("nest3", inter, A, s1, s2, s3)
     if key not in env.vec_cache:
@@ -785,6 +798,9 @@ def run(ctx):
         per_law=per,
         isinstance_probes=stats["checks"],
         annotations_built_or_refused=stats["builds"],
+        groups=len(groups),
+        process_isolation="every group (one job) runs in a fork of its worker made before any annotation is built; instances of a group in a fixed order in that one process",
+        typevars_with_default=sum(1 for t in TYPEVARS if len(t) == 3),
         categories=len(rd.CATS8 if ctx.quick else rd.CATS16),
         dim_strings=len(DIMS8),
         contexts=[c for c, _ in CONTEXTS],
@@ -822,6 +838,9 @@ def run(ctx):
             "a Union of annotations accepts what its first accepting member accepts (members tried in order), as runtime type checkers read it",
         ],
         notes=[
+            "history: after every refused nested build (empty dtype intersection / two multi-axis specifiers) each part alone must still be built; beyond that an instance is judged after the earlier "
+            "instances of its group only (same array type and dim strings), never after other groups",
+            "a PEP 696 default of a TypeVar is read as irrelevant at runtime (the statement lists bound, constraints, or any array-like object)",
             "don't-care: Python scalars in precision-specific categories; np.number outside Shaped/Num; dtypes outside the documented universe are not probed in nesting laws except 'my_dtype' "
             "and, in the 'names' family, names that are no dtype of any library (user names and their neighbours)",
             "the five exported Float8* classes are read as precision classes below Float / Inexact / Real / Num (docs/api/array.md does not list them)",
